@@ -356,13 +356,12 @@ func runC10(c *Ctx) {
 	c.Rule("R10.4", func() {
 		c.Floor("R10.4", 4)
 		sd := c.Func("lintcmd/runner", "serializeDirective")
-		disp := reportPkg + ".DisplayPosition"
 		check := func(fn *ssa.Function, typ, field string, src func(ssa.Value) bool, what string) {
 			vals := storedToField(fn, typ, field)
 			ok := len(vals) > 0
 			for _, v := range vals {
-				call, isCall := v.(*ssa.Call)
-				if !isCall || !IsCallTo(call, disp) || !Derives(call.Call.Args[1], src) {
+				_, posV, isDisp := displayCall(v)
+				if !isDisp || !Derives(posV, src) {
 					ok = false
 				}
 			}
